@@ -382,11 +382,39 @@ def search(ck, tu, tcs, maxsize, seed):
             if sum(m) != half or set(m) - {0, 1} or len(m) != feats:
                 ck.finding("random_mask:count", "features=%d -> %s (expected %d ones)" % (feats, m, half),
                            {"search": "random_mask", "features": feats, "seed": seed + feats * 7 + trial})
+    # constructors hand out FRESH tensors: what a caller does to a returned mask or tensor in place is invisible to the next call
+    ctors = [("create_alternating_binary_mask(%d, even=%s)" % (n_, ev_), (lambda n_=n_, ev_=ev_: tu.create_alternating_binary_mask(n_, even=ev_)))
+             for n_ in (1, 2, 5, 6) for ev_ in (True, False)]
+    ctors += [("create_mid_split_binary_mask(%d)" % n_, (lambda n_=n_: tu.create_mid_split_binary_mask(n_))) for n_ in (2, 5, 6)]
+    ctors += [("get_num_parameters/tensor2numpy round", (lambda: torch.as_tensor(tu.tensor2numpy(torch.arange(4.0)))))]
+    ctors += [("tile(arange(3), 2)", (lambda: tu.tile(torch.arange(3.0), 2))), ("repeat_rows(ones(2,2), 3)", (lambda: tu.repeat_rows(torch.ones(2, 2), 3))),
+              ("split_leading_dim(arange(6), [2,3])", (lambda: tu.split_leading_dim(torch.arange(6.0), [2, 3]))),
+              ("logabsdet(eye(3))", (lambda: tu.logabsdet(torch.eye(3)))), ("cbrt(tensor(8.))", (lambda: tu.cbrt(torch.tensor(8.0))))]
+    for cname, mkc in ctors:
+        ck.case(("s-fresh", cname))
+        a = attempt(mkc)
+        if a[0] != "ok" or not torch.is_tensor(a[1]):
+            continue
+        want = a[1].clone()
+        try:
+            a[1].zero_() if a[1].dtype != torch.bool else a[1].fill_(False)
+            a[1].add_(1) if a[1].dtype != torch.bool else None
+        except RuntimeError:
+            continue
+        b = attempt(mkc)
+        if b[0] != "ok" or b[1].shape != want.shape or not torch.equal(b[1], want) or b[1].data_ptr() == a[1].data_ptr():
+            ck.finding("constructor:returns-shared-tensor", "%s: after the first result was overwritten in place the next call returns %s (first call: %s)"
+                       % (cname, flat(b[1]) if b[0] == "ok" else b[1:], flat(want)), {"search": "fresh-result", "call": cname})
     # type predicates: the usual values, then integers of every size (python ints are unbounded: a float detour stops being exact at 2**53)
     bigs = []
     for e_ in (10, 24, 31, 32, 49, 52, 53, 54, 62, 63, 64, 65, 100, 200):
         bigs += [2 ** e_, 2 ** e_ - 1, 2 ** e_ + 1, 2 ** e_ + 2 ** (e_ // 2), 3 * 2 ** e_]
-    for v in list(PYVALS) + bigs + [-b_ for b_ in bigs[:10]]:
+    # ... and objects that are not ints but compare equal to ints (0.0, -0.0, 0j, Fraction, numpy / torch scalars)
+    import fractions
+    import numpy as _np
+    alike = [0.0, -0.0, 0j, 1 + 0j, fractions.Fraction(0), fractions.Fraction(4, 2), _np.float64(0), _np.float32(2.0), _np.int64(0), _np.int64(4),
+             _np.array(0), _np.array(8), torch.tensor(0), torch.tensor(4), torch.tensor(0.0), torch.tensor(True), _np.bool_(True), "0", b"\x00", [], (0,)]
+    for v in list(PYVALS) + bigs + [-b_ for b_ in bigs[:10]] + alike:
         ck.case(("s-tc", repr(v)))
         isint = isinstance(v, int)
         exp = {"is_bool": isinstance(v, bool), "is_int": isint, "is_positive_int": isint and v > 0,
@@ -397,6 +425,13 @@ def search(ck, tu, tcs, maxsize, seed):
             if got[0] != "ok" or bool(got[1]) != e:
                 ck.finding("typechecks:%s" % name, "%s(%r) = %r, expected %r" % (name, v, got, e),
                            {"search": "typecheck", "fn": name, "arg": repr(v)})
+    # the caller of the predicates: a batch-dimension count that is not a non-negative int is refused with the documented TypeError
+    for k in (0.0, -0.0, 1.0, torch.tensor(0), torch.tensor(1), _np.float64(0), _np.array(1), fractions.Fraction(0), None, "1", -1):
+        ck.case(("s-seb-type", repr(k)))
+        r = attempt(tu.sum_except_batch, torch.ones(2, 3), k)
+        if not (r[0] == "err" and r[1] == "TypeError" and "non-negative integer" in str(r[2])):
+            ck.finding("sum_except_batch:accepts-non-int", "sum_except_batch(ones(2,3), %r) -> %s" % (k, (r[1:] if r[0] == "err" else flat(r[1]))),
+                       {"search": "sum_except_batch-type", "k": repr(k)})
     # get_temperature: sigmoid(T * max) = bound when T < 1
     for mv, b in [(10.0, 0.999), (100.0, 0.75), (7.0, 0.999), (20.0, 0.9)]:
         t = float(tu.get_temperature(mv, b))
